@@ -543,7 +543,7 @@ def kill_runs(ctx, drv, bl, workers=16):
 ERRNOS = ("ENOSPC", "EIO", "EACCES", "EMFILE")
 
 
-def fault_runs(ctx, drv, bl, errnos=ERRNOS, workers=16, only_calls=None):
+def fault_runs(ctx, drv, bl, errnos=ERRNOS, workers=16, only_calls=None, as_prop="C15"):
     """Fail each system call of each operation once. Returns (runs, requested, per_case trace lines)."""
     jobs = []
     for b in bl:
@@ -608,7 +608,7 @@ def fault_runs(ctx, drv, bl, errnos=ERRNOS, workers=16, only_calls=None):
                 key = "failure-after-commit:%s" % ("write" if c.op in ("add", "update", "init") else c.op)
             else:
                 key = "failure-changed-store:%s:%s" % (c.name, call["name"])
-            ctx.violation("C15", key, "%s of %s failed with %s, the operation reported %r, but the store changed: %s" % (
+            ctx.violation(as_prop, key, "%s of %s failed with %s, the operation reported %r, but the store changed: %s" % (
                 where, c.name, en, res["err"], diff))
         if res["ok"]:
             bview = next(b["final_view"] for b in bl if b["case"].name == c.name)
